@@ -1474,3 +1474,29 @@ Proof.
   rewrite forallb_forall, Forall_forall. intros H v Hv. specialize (H v Hv).
   unfold exact_b, exact in *. now destruct (is_float v).
 Qed.
+
+Definition use_exact_b (total : option quantity) (r : node) : bool :=
+  match r, total with
+  | Reference _ _ (AQty q), Some tq =>
+      match conversion q tq with inl c => negb (is_float c) | inr _ => true end
+  | _, _ => true
+  end.
+
+Lemma use_exact_b_ok total r : use_exact_b total r = true -> use_exact total r.
+Proof.
+  unfold use_exact_b, use_exact. destruct r as [d q|d ins|sr i a|b ns sh]; trivial.
+  destruct a as [q|p]; trivial. destruct total as [tq|]; trivial.
+  destruct (conversion q tq) as [c|e]; trivial. unfold exact. now destruct (is_float c).
+Qed.
+
+Definition exact_conversions_b (bs : list (list node)) : bool :=
+  forallb (fun e => forallb (fun ir => forallb (use_exact_b (total_quantity (fst e))) (snd ir)) (snd e))
+          (visit_refs_blocks bs).
+
+Lemma exact_conversions_b_ok bs : exact_conversions_b bs = true -> exact_conversions bs.
+Proof.
+  unfold exact_conversions_b, exact_conversions. rewrite forallb_forall, Forall_forall.
+  intros H e He. specialize (H e He). rewrite forallb_forall in H. apply Forall_forall. intros ir Hir.
+  specialize (H ir Hir). rewrite forallb_forall in H. apply Forall_forall. intros r Hr.
+  apply use_exact_b_ok. auto.
+Qed.
